@@ -5,7 +5,7 @@ import hashlib, json, os, shutil, subprocess, tempfile, time
 VERIF = os.path.dirname(os.path.dirname(os.path.abspath(__file__)))
 REPO = os.environ.get('VERIF_REPO', '/repo')
 DRIVER = os.environ.get('VERIF_DRIVER') or os.path.join(VERIF, 'driver', 'target', 'release', 'mirfacts')
-CACHE = os.path.join(VERIF, '.cache')
+CACHE = os.path.join(os.environ.get('VERIF_OUT_DIR', VERIF), '.cache')      # (self-test runs keep their own cache: no cross-job pruning)
 
 # build configurations (DESIGN.md section 2.1)
 CONFIGS = {
